@@ -81,7 +81,7 @@ def allowedEnv (r : EnvRead) : Bool :=
   -- (A10) not referenced by any function reachable from the tools or the API.
   || r.reach == "module"
 
-/-- Known finding F36: `ConstraintChain` has no `__repr__`, so `str()` of a `HolographicValue` that carries a
+/-- Known finding C06N1: `ConstraintChain` has no `__repr__`, so `str()` of a `HolographicValue` that carries a
 constraint chain embeds a memory address (routing `value_hash`, markdown projection). -/
 def knownFindingEnv (r : EnvRead) : Bool :=
   r.kind == "identity" && r.file == "core/constraints.py" && r.func == "<class ConstraintChain>" && r.n == 1
